@@ -77,6 +77,7 @@ from pysnark.fixedpoint import PrivValFxp, PubValFxp, LinCombFxp
 from pysnark.branching import if_then_else
 from pysnark.array import Array
 __inputs__ = _cfg.get("inputs", [])
+__zero__ = ConstVal(0)
 __CAUGHT__ = Exception
 def __step__(k, loc, model): pass
 def __enter__(r): pass
